@@ -2,7 +2,7 @@
 EXTENDS Scenes, TLC
 Quick == IOEnv.TIER = "quick"
 ASSUME IOEnv.WHAT # "layer_tables" \/ Export("layer_tables",
-              IF Quick THEN LayerTables({0, 1, 3, 5, 8}, 4) ELSE LayerTables(0..8, 4) \cup LayerTables({0, 2, 4, 6, 8}, 5))
+              IF Quick THEN LayerTables({0, 1, 3, 4, 5, 8}, 4) ELSE LayerTables(0..8, 4) \cup LayerTables({0, 2, 4, 6, 8}, 5))
 ASSUME IOEnv.WHAT # "layer_tables" \/ Export("high_classes", HighClasses)
 ASSUME IOEnv.WHAT # "band_layouts" \/ Export("band_layouts",
               IF Quick THEN BandLayouts(2, GapClasses, {"flat", "thick"}, {"a", "b", "ab"}, {"old", "new", "all"})
